@@ -49,6 +49,9 @@ def run(ctx):
         elif op == "TncLog":
             key, what = "C14/flush/before-buffer-zero", "Flush returned although the TNC had not reported BUFFER 0 after the last data frame it accepted: log %s (scenario %s)" % (
                 [(e["k"], e["v"]) for e in ev["log"]], sc)
+        elif op == "CloseLog":
+            key, what = "C14/close/before-disconnected", "Close returned although the TNC had not reported the end of the ARQ session: log %s (scenario %s)" % (
+                [(e["k"], e["v"]) for e in ev["log"]][-8:], sc)
         elif op == "TncFaults":
             key = "C14/crcfault-not-retransmitted/" + (sc.get("script") or "plain")
             what = "a data frame answered with CRCFAULT was never sent again: TNC log %s (scenario %s)" % ([(e["k"], e["v"]) for e in ev["log"]], sc)
